@@ -408,6 +408,38 @@ theorem chain_authentic (c : Codec) (anchors : List Key) (rootKeyMsg : Msg) (lin
   rw [List.mem_filter] at ha
   exact Authentic.root rootKeyMsg a s ha.1 (by simpa using ha.2) hs hb hsv
 
+/-- **Every verdict of `verifyDNSSEC` rests on authentic keys.**  `verifyDNSSEC` checks a response
+of zone `p` (a DS answer, a DS denial, a referral, data) with the DNSKEY RRset it fetches itself.
+HYPOTHESIS `hk`: that RRset is the one the walk validated — which is what the code guarantees by
+fetching it with a CD=0 sub-query whatever the CD bit of the response under check is (regenerated
+shape facts `shape_key_fetch_is_validated`, `shape_cd_fetch_only_before_explicit_validation`).
+Then a `verified` verdict means: the keys are `Authentic` and every collected RRset of the response
+— in particular the NSEC / DS RRsets a "no DS here" verdict is read from — carries a signature that
+verifies under one of THOSE keys.  A key merely padded into an unvalidated DNSKEY answer proves nothing. -/
+theorem verdict_rests_on_authentic_keys (c : Codec) (anchors : List Key) (rootKeyMsg : Msg) (links : List Link)
+    (p : Name) (pks dnskeys : List Key) (parentDS : List DS) (resp : Msg)
+    (hw : chainWalk sv dm now c anchors rootKeyMsg links = some (p, pks))
+    (hk : zoneKeys p dnskeys = pks)
+    (hv : verifyDNSSEC sv dm now p dnskeys parentDS false false resp = .verified) :
+    Authentic sv dm now c anchors p pks ∧
+    ∀ r ∈ collected p resp, ∃ s ∈ resp.sigs, ∃ k ∈ pks,
+      Bound now k s (rrsetOf (collected p resp) (keyOf r)) ∧ sv k s (rrsetOf (collected p resp) (keyOf r)) = true := by
+  refine ⟨chain_authentic c anchors rootKeyMsg links p pks hw, ?_⟩
+  unfold verifyDNSSEC at hv
+  simp only [Bool.false_eq_true, if_false] at hv
+  split at hv; · cases hv
+  split at hv; · cases hv
+  split at hv
+  · cases hv
+  · cases hv
+  · split at hv
+    · rename_i hok
+      rw [hk] at hok
+      intro r hr
+      obtain ⟨s, hs, k, hkk, hb, hsv, _⟩ := (verifyRRSIG_sound hok).2 r hr
+      exact ⟨s, hs, k, hkk, hb, hsv⟩
+    · cases hv
+
 /-- an authentic chain starts at a configured anchor: with an empty trust set nothing is authentic. -/
 theorem authentic_needs_anchor (c : Codec) (anchors : List Key) (z : Name) (ks : List Key)
     (h : Authentic sv dm now c anchors z ks) : anchors ≠ [] := by
@@ -445,7 +477,9 @@ theorem gates_present_in_tree :
     SdnsVerif.Gen.C01.shape_verifydnssec_anchors_own_dnskey_rrset = true ∧
     SdnsVerif.Gen.C01.shape_root_ds_from_anchors_answer = true ∧
     SdnsVerif.Gen.C01.shape_root_ds_from_anchors_authority = true ∧
-    SdnsVerif.Gen.C01.shape_bare_denials_go_through_authority = true := by
+    SdnsVerif.Gen.C01.shape_bare_denials_go_through_authority = true ∧
+    SdnsVerif.Gen.C01.shape_key_fetch_is_validated = true ∧
+    SdnsVerif.Gen.C01.shape_cd_fetch_only_before_explicit_validation = true := by
   decide
 
 /-! ## a zone is treated as unsigned only on proof -/
